@@ -49,6 +49,12 @@ const (
 	sale2 = "0xAbCdEF0000000000000000000000000000000002"
 )
 
+// two ids of more than 32 bytes that share their first 32 bytes
+var (
+	longA = ref + strings.Repeat("x", 24) + "a"
+	longB = ref + strings.Repeat("x", 24) + "b"
+)
+
 var (
 	claimIface = reflect.TypeOf((*skywaytypes.EthereumClaim)(nil)).Elem()
 	intType    = reflect.TypeOf(sdkmath.Int{})
@@ -73,6 +79,7 @@ type claimT struct {
 }
 
 type env struct {
+	voters  []*world.Val // the validators that vote in the pair stages (quorum); the last validator is kept as a late voter for the sequence pass
 	w       *world.World
 	r       *report.Run
 	types   []*claimT
@@ -234,15 +241,47 @@ func (e *env) build(t *claimT, ov map[string]interface{}, v *world.Val) sdk.Msg 
 	return p.Interface().(sdk.Msg)
 }
 
+// chainPrefix is the prefix the keeper's per-chain store really puts in front
+// of a key for the given chain reference id. It is not assumed: it is probed
+// by writing a marker through keeper.GetStore on a fork and reading the raw
+// skyway store back (memoised per id).
+var chainPrefix func(chain string) []byte
+
+func (e *env) probePrefix() func(string) []byte {
+	memo := map[string][]byte{}
+	marker := []byte("\xfeverif-c11-prefix-probe\xfe")
+	return func(chain string) []byte {
+		if p, ok := memo[chain]; ok {
+			return p
+		}
+		ctx := world.Fork(e.w.Root)
+		e.w.App.SkywayKeeper.GetStore(ctx, chain).Set(marker, []byte{1})
+		var found [][]byte
+		it := ctx.KVStore(e.w.App.GetKey(skywaytypes.StoreKey)).Iterator(nil, nil)
+		for ; it.Valid(); it.Next() {
+			if bytes.HasSuffix(it.Key(), marker) {
+				found = append(found, append([]byte{}, it.Key()[:len(it.Key())-len(marker)]...))
+			}
+		}
+		it.Close()
+		if len(found) != 1 {
+			panic(fmt.Sprintf("harness: probing the store prefix of chain %q found %d marker keys", chain, len(found)))
+		}
+		memo[chain] = found[0]
+		return found[0]
+	}
+}
+
 // attKey is the full store key under which votes for the claim are pooled:
-// keeper.GetStore(chain) = prefix store []byte(chainReferenceID) over the
-// skyway store, then types.GetAttestationKey(claim.GetSkywayNonce(), hash)
-// (x/skyway/keeper/attestation.go Attest / SetAttestation).
+// the (probed) prefix of keeper.GetStore(chain) followed by
+// types.GetAttestationKey(claim.GetSkywayNonce(), ClaimHash())
+// (x/skyway/keeper/attestation.go Attest / SetAttestation). It is cross-checked
+// against the record the handler writes in every quorum run.
 func attKey(m sdk.Msg) []byte {
 	c := m.(skywaytypes.EthereumClaim)
 	h, err := c.ClaimHash()
 	must(err)
-	return append([]byte(c.GetChainReferenceId()), skywaytypes.GetAttestationKey(c.GetSkywayNonce(), h)...)
+	return append(append([]byte{}, chainPrefix(c.GetChainReferenceId())...), skywaytypes.GetAttestationKey(c.GetSkywayNonce(), h)...)
 }
 
 // ---------------------------------------------------------------------------
@@ -306,6 +345,22 @@ func (e *env) digest(ctx sdk.Context) (string, map[string]string) {
 	return st["skyway (without attestation records)"] + ":" + w.StoreDigest(ctx, plainStores...), st
 }
 
+// records returns the attestation records of the skyway store by full store key.
+func (e *env) records(ctx sdk.Context) map[string]skywaytypes.Attestation {
+	out := map[string]skywaytypes.Attestation{}
+	it := ctx.KVStore(e.w.App.GetKey(skywaytypes.StoreKey)).Iterator(nil, nil)
+	defer it.Close()
+	for ; it.Valid(); it.Next() {
+		if isAttestationRecord(it.Key()) {
+			var a skywaytypes.Attestation
+			if err := e.w.App.AppCodec().Unmarshal(it.Value(), &a); err == nil {
+				out[string(it.Key())] = a
+			}
+		}
+	}
+	return out
+}
+
 func (e *env) attestations(ctx sdk.Context) (n int, votes []int) {
 	it := ctx.KVStore(e.w.App.GetKey(skywaytypes.StoreKey)).Iterator(nil, nil)
 	defer it.Close()
@@ -340,21 +395,34 @@ func (e *env) quorum(base sdk.Context, bodies []body) (outcome, sdk.Context, []s
 	ctx := world.Fork(base)
 	var o outcome
 	var errs []string
-	for i, v := range e.w.Vals {
+	for i, v := range e.voters {
 		msg := e.build(bodies[i].T, bodies[i].Ov, v)
-		before, _ := e.attestations(ctx)
+		before := e.records(ctx)
 		res := e.w.DeliverTx(ctx, []*world.Actor{v.Actor}, msg)
 		o.Votes = append(o.Votes, stage(res))
 		if res.Err != nil {
 			errs = append(errs, res.Err.Error())
 		}
-		if res.Stage == "build" || res.Stage == "panic" {
+		if res.Stage == "build" {
 			panic(fmt.Sprintf("harness: vote tx %s: %v", res.Stage, res.Err))
 		}
-		// cross-check of the key formula against the record the handler wrote
-		if after, _ := e.attestations(ctx); res.OK() && i == 0 && after == before+1 {
-			if !ctx.KVStore(e.w.App.GetKey(skywaytypes.StoreKey)).Has(attKey(msg)) {
-				panic("harness: attestation record not found under chain prefix + GetAttestationKey(skyway nonce, ClaimHash); key formula of the check is out of date")
+		// cross-check of the computed key against the full store key (chain
+		// prefix included) of the record the handler really wrote. A mismatch is
+		// reported as a verdict, not as a harness crash: the check's notion of
+		// "pooled" would be blind otherwise.
+		if res.OK() && i == 0 {
+			after := e.records(ctx)
+			if len(after) == len(before)+1 {
+				want := attKey(msg)
+				if _, ok := after[string(want)]; !ok {
+					var got string
+					for k := range after {
+						if _, old := before[k]; !old {
+							got = k
+						}
+					}
+					e.r.Violate("oracle:attestation-key-layout", fmt.Sprintf("%s: the first vote created the attestation record under store key %x, the check computes %x (probed chain store prefix + GetAttestationKey(skyway nonce, ClaimHash)): votes are not pooled by (chain, nonce, claim hash) as the property assumes", bodies[i].T.Name, got, want), map[string]interface{}{"case": "layout"})
+				}
 			}
 		}
 	}
@@ -469,15 +537,16 @@ func (e *env) domains() {
 	}
 	huge, _ := sdkmath.NewIntFromString("10000000000000")
 	e.named = map[string][]interface{}{
-		"EventNonce":           u(1, 2, 3),
-		"SkywayNonce":          u(1, 2, 3),
-		"EthBlockHeight":       u(1, 2, 3, 4_000_000_000), // the last one lies after every batch timeout
-		"BatchNonce":           u(1, 2, 3),
-		"TokenContract":        s(erc1, erc2, erc3, swapCase(erc1)),
-		"Amount":               {sdkmath.NewInt(7), sdkmath.NewInt(8), sdkmath.NewInt(100), huge},
-		"EthereumSender":       s("0x00000000000000000000000000000000000000bb", "0x00000000000000000000000000000000000000cc", "0x00000000000000000000000000000000000000dd"),
-		"PalomaReceiver":       s(w.User("U1").Addr.String(), w.User("U2").Addr.String(), "garbage", "a/b"),
-		"ChainReferenceId":     s(ref, ref2, ghostRef),
+		"EventNonce":     u(1, 2, 3),
+		"SkywayNonce":    u(1, 2, 3),
+		"EthBlockHeight": u(1, 2, 3, 4_000_000_000), // the last one lies after every batch timeout
+		"BatchNonce":     u(1, 2, 3),
+		"TokenContract":  s(erc1, erc2, erc3, swapCase(erc1)),
+		"Amount":         {sdkmath.NewInt(7), sdkmath.NewInt(8), sdkmath.NewInt(100), huge},
+		"EthereumSender": s("0x00000000000000000000000000000000000000bb", "0x00000000000000000000000000000000000000cc", "0x00000000000000000000000000000000000000dd"),
+		"PalomaReceiver": s(w.User("U1").Addr.String(), w.User("U2").Addr.String(), "garbage", "a/b"),
+		// spellings that a fixed-width / padded / truncated store prefix would merge
+		"ChainReferenceId":     s(ref, ref2, ghostRef, ref+"\x00", ref+"\x00\x00\x00", longA, longB),
 		"CompassId":            s(world.CompassID, "other-compass", "a/b", ""),
 		"ClientAddress":        s(w.User("fresh1").Addr.String(), w.User("fresh2").Addr.String(), w.User("U1").Addr.String(), "a/b"),
 		"SmartContractAddress": s(sale1, sale2, swapCase(sale1), "a/b"),
@@ -588,7 +657,7 @@ func (e *env) cases(thorough bool) []caseT {
 func (e *env) runCase(c caseT) {
 	r := e.r
 	base := e.bases[c.Base]
-	n := len(e.w.Vals)
+	n := len(e.voters)
 	if c.T2 == nil {
 		c.T2 = c.T
 	}
@@ -649,7 +718,7 @@ func (e *env) runCase(c caseT) {
 	}
 	msg := fmt.Sprintf("base state %q, %s: c1 {%s} and c2 {%s} (%s) have the same attestation key %x but different effect:\n"+
 		"unanimous c1: votes %v state %s %v\nunanimous c2: votes %v state %s %v\nstores that differ: %v\n"+
-		"mixed run (v0 submits c2 first, v1 and v2 vote c1): votes %v, %d new attestation record(s) with %v votes, state %s %v: %s",
+		"mixed run (v0 submits c2 first, the other voters vote c1): votes %v, %d new attestation record(s) with %v votes, state %s %v: %s",
 		base.Name, tn, c.Show1, c.Show2, rest, k1,
 		o1.Votes, o1.Digest, brief(err1), o2.Votes, o2.Digest, brief(err2), differing(o1, o2),
 		om.Votes, recs-recs0, votes, om.Digest, brief(errm), what)
@@ -671,7 +740,7 @@ func brief(errs []string) string {
 // effect in the base state built for it.
 func (e *env) nonVacuous() {
 	w := e.w
-	n := len(w.Vals)
+	n := len(e.voters)
 	full := e.bases[len(e.bases)-1]
 	eff := map[string]interface{}{}
 	unroutable := []string{}
@@ -709,21 +778,25 @@ func (e *env) nonVacuous() {
 }
 
 func run(r *report.Run, shard, nshards int, replayFile string) {
-	w := world.New(world.Config{Stakes: world.StakesOf(1_000_000, 1_000_000, 1_000_000),
+	w := world.New(world.Config{Stakes: world.StakesOf(1_000_000, 1_000_000, 1_000_000, 1_000_000, 1_000_000),
 		Users: []string{"adm", "U1", "U2", "funder", "granter"}, Unfunded: []string{"fresh1", "fresh2"}, Height: 101})
 	e := &env{w: w, r: r, effects: map[string]int{}, frees: map[string]int{}, nohash: map[string]int{}, unsub: map[string]int{}}
+	e.voters = w.Vals[:4]
+	chainPrefix = e.probePrefix()
 	e.domains()
 	e.setup()
 	e.discover()
-	r.Rule = "for every EthereumClaim implementer in the interface registry, every exported field found by reflection except Orchestrator/Metadata, every ordered pair of distinct values of the field's domain (3-4 values, plus for strings the upper / lower / mixed-case and for hex addresses the lower / upper / EIP-55 spellings of the valid value), every base state (token registered, batches open, light-node sale configured: 6 combinations): c1 and c2 are voted to quorum by 3 validators (signed txs through ante + router) and tallied by skyway.EndBlocker in two forks; if votes accepted or resulting state differ the attestation store keys must differ; a case is non-trivial when the outcomes differ. Collision search: per claim type the attestation keys of the full product of a token alphabet over all fields simultaneously are computed (no execution) and grouped; members of every group of >= 2 distinct tuples go through the same differential oracle"
+	r.Rule = "for every EthereumClaim implementer in the interface registry, every exported field found by reflection except Orchestrator/Metadata, every ordered pair of distinct values of the field's domain (3-4 values, plus for strings the upper / lower / mixed-case and for hex addresses the lower / upper / EIP-55 spellings of the valid value), every base state (token registered, batches open, light-node sale configured: 6 combinations): c1 and c2 are voted to quorum by 4 of 5 equal validators (signed txs through ante + router) and tallied by skyway.EndBlocker in two forks; if votes accepted or resulting state differ the attestation store keys must differ; a case is non-trivial when the outcomes differ. Collision search: per claim type the attestation keys of the full product of a token alphabet over all fields simultaneously are computed (no execution) and grouped; members of every group of >= 2 distinct tuples go through the same differential oracle"
 	r.Assumptions = []string{
 		"outcome = (per-vote accepted / rejected stage, digest of skyway store without the attestation records, bank, acc, feegrant, paloma-store, distribution stores); error texts are not compared",
-		"attestation key = []byte(ChainReferenceId) + GetAttestationKey(GetSkywayNonce(), ClaimHash()) as in keeper.Attest; cross-checked on every run against the record the handler wrote",
+		"attestation key = store prefix of the chain id (probed through keeper.GetStore, not assumed) + GetAttestationKey(GetSkywayNonce(), ClaimHash()) as in keeper.Attest; cross-checked on every run against the full store key of the record the handler wrote (mismatch = verdict oracle:attestation-key-layout)",
 		"weaker reading chosen: a pair counts only when each of the two claims has at least one vote accepted when voted on its own (a claim that stateless validation / ante / the handler refuses outright has no votes that could be pooled)",
 		"a field for which no pair changes the outcome in any base state may be absent from the hash (EventNonce is never read by the module; SkywayNonce is the nonce used)",
 		"value domains are keyed by field name (valid values incl. strings containing '/'); unknown fields get a generic domain by kind; a field of an unsupported kind or an unknown claim type makes the run non-exhaustive",
 		"collision search alphabet: free-form string fields (those whose ValidateBasic accepts a '/') take {valid, 2nd valid, \"\", a/b, .., ../valid, ./valid, valid/.., %2F, a%2Fb, mixed-case valid} (thorough: 16 tokens), other strings and numeric fields 2 values (thorough: strings 3); fields to which the key does not react on single-field variation (EventNonce) are held at their default, their omission is judged by the single-field stage",
 		"cross-type pass: free-form string fields of all types draw from one pool (valid values of all string fields of all claim types + decimal renderings of numeric defaults; thorough: + second valid values); one free-form field at a time takes the composites x/y (x raw and url.PathEscape'd) over that pool; fields that enter the key outside ClaimHash (ChainReferenceId), validated strings and numeric fields take 2 values; all tuples of all types share one key map; groups are evaluated closest-to-valid first within a budget (cap reported)",
+		"sequence pass (5 equal validators, the pair stages vote with 4 of them): per routable claim type and field, A = the valid claim, B = A with the field's second value (thorough: every other value, all base states), schedules late-vote / nonce-reset (governance MsgNonceOverrideProposal to 0) / partial-then-quorum / interleaved; after every step a ghost of accepted votes is compared with the stored attestation records: a record holds only votes of validators whose accepted claim has that record's key, and every accepted vote is listed in the record under the key of the claim submitted. Whether B is observed after a reset is counted but is not an oracle (a stale observed attestation at the same nonce can stop the tally on the unchanged tree)",
+		"ChainReferenceId is treated as key-relevant outside the hash (detected: key reacts, ClaimHash does not): its domain and collision alphabet add id+NUL, id+3 NUL, two ids > 32 bytes sharing the first 32 bytes, the upper-case spelling and the other real chain id",
 		"thorough tier: separator-shift pairs over every ordered pair / triple of string (and numeric middle) fields, reported under signature prefix sepshift:",
 	}
 	if shard == 0 {
@@ -779,6 +852,7 @@ func run(r *report.Run, shard, nshards int, replayFile string) {
 	}
 	e.collisionSearch(shard, nshards, deadline, want)
 	e.crossTypeSearch(shard, nshards, deadline, want)
+	e.sequencePass(shard, nshards, want)
 	var ne, nf, nk float64
 	for k, v := range e.effects {
 		ne += float64(v)
